@@ -232,6 +232,9 @@ func BuildStack(n Node) stackage.Stack {
 	if nBool(n, "nn") {
 		s.SetNoNesting(true) // after the elements went in: the option concerns future pushes only
 	}
+	if nBool(n, "er") {
+		s.SetErr(errUser) // a leftover error: it says something about an earlier call, nothing about the content
+	}
 	return s
 }
 
